@@ -30,8 +30,12 @@ def run(ctx):
     ctx.rule = ("TLC enumerates the states 'call' of the state machine Pick seed -> Mutate -> Decode of Untrusted.tla: every seed "
                 "(valid encoding) of every format x every mutation operator instance (truncate at every field boundary and +-1 byte, "
                 "every numeric field := 0/1/max-1/max/value-1/value+1/sign boundary, duplicate/drop every field, splice at every "
-                "pair of boundaries, nest containers 2^k deep; for JOSE/OCSP/JSON+ the symbolic tuples operator x position class x "
-                "value class, named parts and header members, DER TLV nodes), purely random inputs of the lengths "
+                "pair of boundaries, nest containers 2^k deep, restate a full chunk header with boundary lengths / other type / stream "
+                "id inside every message in progress; for JOSE/OCSP/JSON+ the symbolic tuples operator x position class x "
+                "value class, named parts and header members, DER TLV nodes incl. every node of the first 64/120 replaced by a truncated or "
+                "inconsistent version of itself under re-computed outer lengths; the Forge family: JWE objects of an independent "
+                "writer that are correctly authenticated over hostile inner content - every enc x key management class x both "
+                "serialisations x ciphertext/padding/iv/zip/wrong-size-CEK classes), purely random inputs of the lengths "
                 "0,1,2,3,7,64,1000,65536 per format, all values of every enum type, and the scaling families at doubling sizes; "
                 "a case is distinct if its JSON differs; 'evaluations' counts decoder / enum-method calls")
     ctx.exhaustive = False
@@ -47,7 +51,8 @@ def run(ctx):
         "a stall is a decoder call that does not return within 20 s (inputs are at most 70 KB) or a stream decoder that returns "
         "more values than its finite input can hold",
         "JOSE objects are produced by the library's own Sign/Encrypt (plus two RFC 7516 JSON forms it cannot produce, written with "
-        "crypto/aes), OCSP DER by the library's CreateRequest, its test vectors and an RFC 6960 writer in the harness",
+        "crypto/aes) and, for the Forge family, by the harness' own JWE writer (stdlib AES-CBC/HMAC/GCM/RSA/ECDH, own RFC 3394 "
+        "wrap and Concat KDF; bound to RFC 7516 by the library decrypting its honest objects), OCSP DER by the library's CreateRequest, its test vectors and an RFC 6960 writer in the harness",
         "AVC samples are decoded with lengthSizeMinusOne 0..3 (the two-bit field of the configuration record); "
         "flv.Demuxer.ReadTag gets the size ReadTagHeader returned",
         "unrecoverable runtime errors (stack exhaustion, out of memory) would end the replayer: exit 2, not a verdict",
